@@ -2,9 +2,13 @@ pub(crate) mod mutex;
 pub(crate) mod rwlock;
 
 use core::marker::PhantomData;
+#[cfg(tiny_std_verif)]
+use crate::verif::{futex_wait, AtomicU32};
+#[cfg(not(tiny_std_verif))]
 use core::sync::atomic::AtomicU32;
 use core::sync::atomic::Ordering::Relaxed;
 use rusl::error::Errno;
+#[cfg(not(tiny_std_verif))]
 use rusl::futex::futex_wait;
 use rusl::platform::FutexFlags;
 pub use {mutex::Mutex, mutex::MutexGuard};
